@@ -170,6 +170,10 @@ def doc_term(case, written):
 # link given twice in complement forms, ordered groups of one item, nested sets
 CORPUS = [
     (['S\ta\t*', 'P\tp\ta+\t*'], 'gfa1'),
+    # characters that some text functions take for line ends (form feed, file/group/record separators) inside a comment
+    # and inside a field of a custom record: the only line end of a document is LF (or CRLF)
+    (['H\tVN:Z:1.0', '# form\x0cfeed and \x1c\x1d\x1e separators', 'S\ta\t*', '#\x0b'], 'gfa1'),
+    (['H\tVN:Z:2.0', 'S\ta\t10\t*', 'X\tf\x0cg\th\x1ci\txx:Z:jk', '# c\x1e'], 'gfa2'),
     (['S\ta\tACGT', 'S\tb\t*\tLN:i:6', 'L\ta\t+\tb\t-\t2M', 'P\tp\ta+,b-\t2M', 'P\tq\ta-\t*', 'P\tr\tb+,a-\t*',
       'C\tb\t+\ta\t-\t1\t4M', 'L\tb\t+\ta\t-\t2M'], 'gfa1'),
     (['H\tVN:Z:1.0', 'S\ta\tACGT\tLN:i:4', 'S\tb\tAC\tLN:i:2\tRC:i:0', 'L\ta\t+\ta\t-\t*', 'P\tp\ta+,a-\t*'], 'gfa1'),
@@ -237,8 +241,10 @@ def _run(ctx, deep, model_ok):
         if not lines:
             continue
         det = version_determined(lines, ver)
-        for vl in ([0, 1, 2, 3] if deep else [rng.choice([0, 2, 3]), 1]):
-            case = {'kind': 'doc', 'doc': lines, 'version': ver, 'vlevel': vl, 'entry': rng.choice(entries),
+        from_corpus = i // 2 < len(CORPUS) and i % 2 == 0
+        for vl, entry in [(vl, e) for vl in ([0, 1, 2, 3] if deep else [rng.choice([0, 2, 3]), 1])
+                          for e in (entries if from_corpus else [rng.choice(entries)])]:
+            case = {'kind': 'doc', 'doc': lines, 'version': ver, 'vlevel': vl, 'entry': entry,
                     'explicit_version': (not det) or rng.random() < 0.4}
             rts = set(l.split('\t')[0][:1] for l in lines)
             delayed = any((':J:' in l or ':B:' in l or ':H:' in l or ':f:' in l) for l in lines)
